@@ -5,11 +5,12 @@ CONSTANTS
   Wrap32 = TRUE
   EscAware = TRUE
   PA = {123, 125, 91, 93, 34, 92, 49, 44, 58}
-  LP = 3
+  LP = 1
+  LP1 = 1
   LP2 = 1
   HA = {123, 125, 91, 93, 34, 92, 49, 44, 32}
-  LH = 3
-  LHR = 5
+  LH = 0
+  LHR = 0
   Kinds = {"header"}
 SPECIFICATION Spec
 INVARIANTS TotalByReturnValue
